@@ -730,6 +730,11 @@ func (t *Table) Put(input *types.PutItemInput) (map[string]*types.Item, error) {
 // ValidatePut checks that the item can be written: key attributes and index key attributes
 // are present with the declared types. Nothing is written.
 func (t *Table) ValidatePut(item map[string]*types.Item) error {
+	// everything Put refuses an item for (a batch is checked as a whole before its first request is applied)
+	if err := t.CheckNumbers(item); err != nil {
+		return err
+	}
+
 	if _, err := t.KeySchema.GetKey(t.AttributesDef, item); err != nil {
 		return types.NewError("ValidationException", err.Error(), nil)
 	}
@@ -739,6 +744,10 @@ func (t *Table) ValidatePut(item map[string]*types.Item) error {
 
 // ValidateKey checks that the key attributes are present with the declared types
 func (t *Table) ValidateKey(key map[string]*types.Item) error {
+	if err := t.CheckNumbers(key); err != nil {
+		return err
+	}
+
 	if _, err := t.KeySchema.GetKey(t.AttributesDef, key); err != nil {
 		return types.NewError("ValidationException", err.Error(), nil)
 	}
